@@ -4,7 +4,11 @@
 From Coq Require Import FMapPositive.
 From Ship Require Import Base Closure Conn ConnEvents ConnMon ConnClosure Pair PairClosure.
 
-Record pair_case := mkPairCase { pc_cfg : pcfg; pc_labels : list label; pc_sums : list psum }.
+(* after the label run, if both sides are complete on an open connection, the harness lets
+   each side write a burst of SPINE datagrams back to back and then delivers them all:
+   what was written (payload ids) and what the peer's reader got, per direction *)
+Record pair_case := mkPairCase { pc_cfg : pcfg; pc_labels : list label; pc_sums : list psum;
+  pc_cs_sent : list N; pc_cs_got : list N; pc_sc_sent : list N; pc_sc_got : list N }.
 
 Definition pstep_or_stay1 (cfg : pcfg) (p : pair) (l : label) : pair :=
   match pstep2 false cfg p l with Some q => q | None => p end.
@@ -43,6 +47,7 @@ Definition V_PAIR_SHOULD_NOT_COMPLETE : N := 72.
 Definition V_PAIR_DISAGREE : N := 73.
 Definition V_PAIR_SETUP_TWICE : N := 74.
 Definition V_PAIR_COMPLETE_WITHOUT_TRUST : N := 75.
+Definition V_PAIR_SPINE_NOT_EXACTLY_ONCE_IN_ORDER : N := 76.
 
 Definition trust_in_labels (cfg : pcfg) (ls : list label) : bool :=
   f_paired cfg || f_auto cfg || (f_approves cfg && existsb (fun l => match l with LApprove => true | _ => false end) ls).
@@ -67,8 +72,15 @@ Definition pair_monitor (c : pair_case) : codes :=
               else [V_PAIR_SHOULD_COMPLETE]) ++
         (if implb (must_fail cfg) (sum_both_ended o && negb (o_compc o) && negb (o_comps o)) then [] else [V_PAIR_SHOULD_NOT_COMPLETE])
     end in
-  nodup N.eq_dec (safety ++ outcome).
+  let spine :=
+    if list_eqb N.eqb (pc_cs_sent c) (pc_cs_got c) && list_eqb N.eqb (pc_sc_sent c) (pc_sc_got c)
+    then [] else [V_PAIR_SPINE_NOT_EXACTLY_ONCE_IN_ORDER] in
+  nodup N.eq_dec (safety ++ outcome ++ spine).
 
 Definition check_pair (c : pair_case) : codes :=
   (if list_eqb psum_eqb (run_sums (pc_cfg c) (pair_init (pc_cfg c)) (pc_labels c)) (pc_sums c) then [] else [1])
   ++ pair_monitor c.
+
+(* the C06 projection of the pair stream: correspondence, and only the SPINE burst monitor *)
+Definition check_pair_spine (c : pair_case) : codes :=
+  filter (fun k => N.eqb k 1 || N.eqb k V_PAIR_SPINE_NOT_EXACTLY_ONCE_IN_ORDER) (check_pair c).
